@@ -1799,6 +1799,10 @@ func Expire() int {
 	}
 
 	count := count()
+	if count == 0 {
+		// nothing we can expire
+		return 0
+	}
 	fair := low / int64(count)
 
 	bigcount := 0
@@ -1813,6 +1817,10 @@ func Expire() int {
 		return true
 	})
 
+	if bigcount == 0 {
+		// the torrents changed while we were counting
+		return 0
+	}
 	fair2 := (low - smallspace) / int64(bigcount)
 
 	Range(func(h hash.Hash, t *Torrent) bool {
